@@ -239,8 +239,10 @@ def handle_function_driver(P, prop):
             if len(sets) == 1:
                 obj = sets[0][3]
                 P.prove("property.is_an_attribute_named_after_the_function", P.resolve_cls(obj) == "Attribute" and obj.fields["name"] is name)
-                P.prove("property.span_and_runtime", obj.fields["lineno"] is node.fields["lineno"] and obj.fields["endlineno"] is node.fields["end_lineno"]
-                        and z3.is_true(z3.simplify(zbool(obj.fields["runtime"]) == z3.Not(G0))))
+                # the definition of a property starts at its first decorator, like every decorated definition (slicing the source by the span returns it whole)
+                P.prove("property.span_starts_at_the_first_decorator", zint(obj.fields["lineno"]) == z3.If(nd > 0, DLN(0), zint(node.fields["lineno"])))
+                P.prove("property.span_ends_with_the_definition", obj.fields["endlineno"] is node.fields["end_lineno"])
+                P.prove("property.runtime_flag_is_not_type_guarded", zbool(obj.fields["runtime"]) == z3.Not(G0))
         P.cover("handle_function.property")
         return
     inst = [e for e in ev if e[0] == "ext" and e[1] == "on_instance"]
